@@ -118,6 +118,10 @@ PAIRS = [
      [('complete', 1, 'a1', 'i1', 'Success'), ('complete', 2, 'a2', 'i2', 'Success')]),
     ('complete_A||complete_A(duplicate report)', ['pair_running'],
      [('complete', 1, 'a1', 'i1', 'Success'), ('complete', 1, 'a1', 'i1', 'Success')]),
+    # the same report twice while the shared child's OTHER parent is still running: a second pass through the completion
+    # branch would decrement the child's n_pending_parents twice and release it early
+    ('complete_A||complete_A(duplicate report, shared child)', ['nested_running'],
+     [('complete', 1, 'a1', 'i1', 'Success'), ('complete', 1, 'a1', 'i1', 'Success')]),
     ('cancel_g1||complete(job in g2 under g1)', ['nested_running', 'nested_running+u2_in_groups'],
      [('cancel', 1), ('complete', 2, 'a2', 'i2', 'Success')]),
     ('cancel_g2||complete(job in g2)', ['nested_running'],
@@ -185,6 +189,7 @@ QUICK = [   # ~575 executions, the longest item ~160; cancel || complete / commi
     ('schedule||cancel_g1', 'nested_ready'),
     ('commit_u2||commit_u2(retry)', 'single+u2_child'),
     ('complete_A||complete_A(duplicate report)', 'pair_running'),
+    ('complete_A||complete_A(duplicate report, shared child)', 'nested_running'),
 ]
 
 
